@@ -19,7 +19,12 @@ PLANS = {
     "C01": [("runsim", "asan", "lifecycle", 40000, 1200000), ("runsim", "noexc", "lifecycle", 30000, 800000),
             ("runsim", "asan", "pointers", 8000, 200000), ("runsim", "asan", "leaks", 8000, 200000), ("runsim", "asan", "selection", 8000, 200000)],
     "C02": [("runsim", "asan", "selection", 60000, 2000000), ("runsim", "asan", "lifecycle", 10000, 300000), ("runsim", "noexc", "selection", 10000, 300000)],
+    "C04": [("heapsim", "asan", "accounting", 30000, 1200000), ("heapsim", "noguard", "accounting", 15000, 500000), ("heapsim", "asan", "misuse", 10000, 200000), ("heapsim", "asan", "soundness", 10000, 200000)],
+    "C05": [("heapsim", "asan", "soundness", 40000, 1500000), ("heapsim", "noguard", "soundness", 20000, 700000), ("heapsim", "asan", "accounting", 8000, 200000), ("heapsim", "asan", "oom", 8000, 200000)],
+    "C06": [("heapsim", "asan", "misuse", 50000, 2000000), ("heapsim", "noguard", "misuse", 15000, 500000), ("heapsim", "asan", "accounting", 8000, 200000)],
     "C07": [("runsim", "asan", "leaks", 50000, 1500000), ("runsim", "noexc", "leaks", 15000, 500000)],
+    "C14": [("heapsim", "asan", "diagnostics", 30000, 1000000), ("heapsim", "noguard", "diagnostics", 10000, 300000), ("heapsim", "asan", "accounting", 8000, 200000), ("runsim", "asan", "leaks", 10000, 300000)],
+    "C15": [("heapsim", "asan", "oom", 50000, 2000000), ("heapsim", "noguard", "oom", 15000, 500000)],
     "C16": [("runsim", "asan", "junit", 30000, 800000), ("runsim", "noexc", "junit", 8000, 200000)],
     "C17": [("runsim", "asan", "pointers", 40000, 1500000), ("runsim", "noexc", "pointers", 15000, 500000), ("runsim", "asan", "lifecycle", 10000, 300000)],
     "C20": [("runsim", "asan", "teamcity", 40000, 1200000), ("runsim", "noexc", "teamcity", 8000, 200000)],
@@ -37,13 +42,25 @@ COMPONENTS = {
     },
 }
 
+COMPONENTS["heapsim"] = {
+    "real": ["src/CppUTest/MemoryLeakDetector.cpp (table, lists, report buffer)", "MemoryLeakWarningPlugin.cpp global routing (operator new/delete forms, cpputest_malloc/realloc/free wrappers) with the simulator's detector installed through setGlobalDetector()",
+             "TestMemoryAllocator.cpp (default allocators, FailableMemoryAllocator, NullUnknownAllocator)", "TestHarness_c.cpp (cpputest_malloc/calloc/strdup/strndup/realloc/free, out-of-memory countdown)", "SimpleStringBuffer"],
+    "simulated": ["platform heap (PlatformSpecificMalloc/Realloc/Free -> SimHeap: fixed-address bump arena, address steering mod 73, dirty memory, n-th call returns NULL, size limit, ASan-poisoned gaps and freed blocks)",
+                  "allocators with arbitrary type names and injected NULL results (SimAllocator)", "MemoryLeakFailure (recording reporter that returns)", "PlatformSpecificVSNprintf (bounds-checking pass-through for the 4096-byte buffers)", "PlatformSpecificMemCpy (NULL-checking pass-through)"],
+}
 RULES = {
+    "heapsim": "one evaluation = one generated history of 1-400 operations (alloc/free/realloc through the local API with inline or separate bookkeeping and through the global operator new / cpputest_malloc routing, period/stage/clear/report "
+               "operations, byte flips, foreign frees, wrapper allocators, failure designations, out-of-memory countdowns) against a fresh detector over the simulated heap; oracles run after every operation. "
+               "Non-trivial = at least one tracked allocation succeeded; distinct = distinct hashes of (operations, allocation numbers, periods, report texts, verdicts).",
     "runsim": "one evaluation = one whole simulated command-line run (generated registry of scripted tests x argv x plugins x fault plan, all derived from one seed). "
               "Non-trivial = at least one failure was recorded or the runner returned non-zero; distinct = distinct 64-bit hashes of the address-free event log "
               "(op trace, output callbacks, failure records, console bytes, files, return value) among the non-trivial runs.",
 }
 
 ASSUMPTIONS = {
+    "heapsim": ["failures of the separate bookkeeping-node allocation and the combination nothrow-new x platform malloc returning NULL are outside the fault model (DESIGN 9)",
+                "the message buffer is cleared (startChecking + period restore) before operations whose report category is compared, as at the start of every test; the diagnostics profile does not clear",
+                "period semantics follow the header: a query for 'enabled' also sees blocks stamped 'checking'", "seeded sampling: a clean batch is evidence, not proof"],
     "runsim": ["oracles are evaluated over the run's recorded history against a reference model written from the property text",
                "seeded sampling: a clean batch is evidence, not proof",
                "exceptions thrown from test constructors/destructors, -f crash mode and TEST_EXIT are not generated",
